@@ -4,7 +4,7 @@ import torch
 from . import models, wq
 
 EVIDENCE = dict(
-    bounds="input, weight, bias and the upstream gradient symbolic; Linear(3,2) with input ranks 2,3,4 (batch dims <= 2) and Conv2d(1,2,2); six weight qtypes; activations None/qint8 (+qfloat8_e4m3fn thorough); float32 (+float16 thorough); frozen and unfrozen; weight updates in three styles (no_grad copy_, .data.copy_, .data rebinding) followed by a forward; every combination of requires_grad flags on weight, bias and input; float16: bit-exact (BIT) rounding clause when terms differ, weight codes and scales cut to free variables",
+    bounds="input, weight, bias and the upstream gradient symbolic; Linear(3,2) with input ranks 2,3,4 (batch dims <= 2) and Conv2d(1,2,2); plus, for every integer literal L in 24..32768 that the current source of tensor/qtensor_func.py, tensor/qbytes_ops.py, tensor/qbytes.py, nn/qlinear.py, nn/qconv2d.py uses in a comparison, //, %, range/split/chunk or constant assignment, inputs with L+1 and 2L+1 rows (none on the pinned tree); six weight qtypes; activations None/qint8 (+qfloat8_e4m3fn thorough); float32 (+float16 thorough); frozen and unfrozen; weight updates in three styles (no_grad copy_, .data.copy_, .data rebinding) followed by a forward; every combination of requires_grad flags on weight, bias and input; float16: bit-exact (BIT) rounding clause when terms differ, weight codes and scales cut to free variables",
     outside="higher-order gradients; CUDA kernels; sizes beyond the bounds (the hand-written backward's rank handling is exercised for ranks 2-4)",
     assumptions=[
         "ALG term identity (uninterpreted float ops, canonical multiset form of contractions) = equal under any float semantics; on a mismatch the disequality is asked in exact real arithmetic (RERR ideal) and the model replayed",
@@ -13,6 +13,7 @@ EVIDENCE = dict(
 )
 CASE_DEADLINE = dict(quick=300.0, thorough=1200.0)
 ALLQ = wq.QT8 + wq.QTB
+THRESHOLD_FILES = ["optimum/quanto/tensor/qtensor_func.py", "optimum/quanto/tensor/qbytes_ops.py", "optimum/quanto/tensor/qbytes.py", "optimum/quanto/nn/qlinear.py", "optimum/quanto/nn/qconv2d.py"]
 
 
 def cases(tier, seed):
@@ -34,6 +35,13 @@ def cases(tier, seed):
                 out.append(dict(kind="grad", module="linear", dtype="float16", qtype=q, act=None, xshape=[2, 3]))
             if tier == "thorough":
                 out.append(dict(kind="stale", module="conv", dtype=dt, qtype=q))
+    # row counts derived from the integer thresholds of the current source of the hand-written backward (none on the pinned tree):
+    # a blocked / chunked / fast path that starts beyond the default batch bounds is entered with one and two blocks plus a remainder
+    for L, where in sorted(wq.size_thresholds(THRESHOLD_FILES).items()):
+        for rows in (L + 1, 2 * L + 1):
+            if rows * 3 <= 40000:
+                for a in (None, "qint8"):
+                    out.append(dict(kind="grad", module="linear", dtype="float32", qtype="qint8", act=a, xshape=[rows, 3], threshold=f"{L} at {where[0]}"))
     return out
 
 
